@@ -48,6 +48,8 @@ structure Scen where
   pos : Pos
   ctx : String     -- none | cancel | deadline | timeout
   post : Bool      -- legacy SSE: the fault hits the POST exchanges
+  accept : Bool    -- HTTP: every connection ends at accept, no request is read
+  afterInit : Bool -- stdio: the child leaves right after the handshake, the calls are issued afterwards
   closeLive : Bool
 
 /-- Apply the events that are enabled, in order (a disabled one is skipped: the scripts contain conditional steps). -/
@@ -90,6 +92,8 @@ def runScript (f : Facts) (sc : Scen) : Json := Id.run do
   let mut s := init cfg
   let n := sc.n
   let idx := List.range n
+  if sc.afterInit then
+    s := apply f cfg s [.procExit, .readerExit, .watcherExit]
   s := apply f cfg s (idx.map .issue)
   let mut outs : Array String := Array.replicate n "hung"
   -- the calls answered before the fault
@@ -108,7 +112,9 @@ def runScript (f : Facts) (sc : Scen) : Json := Id.run do
       s := apply f cfg s (answerFully sc j)
   else if sc.fault = .http500 then
     s := apply f cfg s (rest.map (fun j => Ev.headers j false))
-  else if sc.post then
+  else if sc.afterInit then
+    pure ()
+  else if sc.post || sc.accept then
     if sc.fault = .close || sc.fault = .reset then
       s := apply f cfg s (rest.map .connErr)
   else
@@ -189,7 +195,8 @@ def handle (op : String) (j : Json) : Except String Json := do
     let t ← transportOf (← getStr j "t")
     let sc : Scen := { t := t, fr := ← framingOf (← getStr j "framing"), handlers := ← getBool j "handlers", n := ← getNat j "n",
                        answered := ← getNat j "answered", fault := ← faultOf (← getStr j "fault"), pos := ← posOf (← getStr j "pos"),
-                       ctx := ← getStr j "ctx", post := (← getStr j "where") == "post", closeLive := ← getBool j "closeLive" }
+                       ctx := ← getStr j "ctx", post := (← getStr j "where") == "post", accept := (← getStr j "where") == "accept",
+                       afterInit := (← getStr j "where") == "afterInit", closeLive := ← getBool j "closeLive" }
     pure (runScript (factsOf tb t) sc)
   | "closeLive" =>
     let k ← getNat j "clients"
